@@ -10,7 +10,7 @@ def ctor_name(cfg):
     return cfg.get("meta", {}).get("container_constructor", "NewGontainer")
 
 
-def run_batch(ctx, items, race=False, tag="b", local=False):
+def run_batch(ctx, items, race=False, tag="b", local=False, split=True):
     """items: list of (cfg_or_files, ops). cfg dicts get meta.pkg forced to a non-main package.
     returns list of dicts {accepted, cli_out, impl:[…]|None, model:[…]|None, files}"""
     root = os.path.join(ctx.scratch(), "lb_" + tag)
@@ -23,7 +23,19 @@ def run_batch(ctx, items, race=False, tag="b", local=False):
             cfg.setdefault("meta", {})
             if cfg["meta"].get("pkg", "main") == "main":
                 cfg["meta"]["pkg"] = "gen"
-            files = [gen.yaml_doc(cfg)]
+            # about a third of the configurations are distributed over 2-3 files in a way the documented merge rules
+            # reassemble (scalars, maps, arguments, calls/tags/decorators in file order): the result must be the same
+            if "__files__" in cfg:
+                # the caller fixed the distribution over files; the rest of `cfg` is the merged view its oracle uses
+                fl = cfg.pop("__files__")
+                for f_ in fl:
+                    f_.setdefault("meta", {})
+                fl[0]["meta"].setdefault("pkg", cfg["meta"]["pkg"])
+                files = [gen.yaml_doc(f_) for f_ in fl]
+            elif split and ctx.rng.random() < 0.34:
+                files = [gen.yaml_doc(f) for f in gen.split_config(ctx.rng, cfg, ctx.rng.randint(2, 3))]
+            else:
+                files = [gen.yaml_doc(cfg)]
             cn = ctor_name(cfg)
         else:
             files = [gen.yaml_doc(f) for f in cfg]
